@@ -245,7 +245,11 @@ Query(ev) ==
     LALet3(Mat(ev.c, ev.r0, SqN(ev.a[1])), LAQOfW(ev.a[2][1]), QMulInt(EpsQ(f), 64), LAMBDA M, eps, rel :
       IF QSign(eps) < 0 \/ ~InWindow(M.e) THEN Skip ELSE
       LALet1(CASE ev.op = "isNull" -> LAIsNullM(M, eps, rel)
-               [] ev.op = "isIdentity" -> LAIsIdentityM(M, eps, rel)
+               \* isIdentity compares single entries: |m_ij| <= eps has no rounding at all, and m_ii - 1 is exact for
+               \* 1/2 <= m_ii <= 2 (Sterbenz): then the comparison is decided exactly, ties included (no guard band)
+               [] ev.op = "isIdentity" ->
+                    LAIsIdentityM(M, eps, IF \A i \in 1..(IF M.c < M.r THEN M.c ELSE M.r) : QLe(QF(1, 2), MAt(M, i, i)) /\ QLe(MAt(M, i, i), QI(2))
+                                          THEN QZero ELSE rel)
                [] ev.op = "isNormalized" -> LAIsNormalizedM(M, eps, rel)
                [] ev.op = "isOrthogonal" -> LAIsOrthogonalM(M, eps, rel), LAMBDA want :
         IF want = "U" THEN Skip
